@@ -54,7 +54,10 @@ import (
 	"github.com/lightningnetwork/lnd/lnwire"
 )
 
-const c01sBitLease = uint64(1) << 6
+const (
+	c01sBitZeroFee = uint64(1) << 5
+	c01sBitLease   = uint64(1) << 6
+)
 
 // ---------------------------------------------------------------------------
 // derived keys (taproot output keys): identity = ideal hash
@@ -423,14 +426,20 @@ const c01sX = 1 // the commitment is B's
 var c01sFeeRates = [3]int64{2500, 253, 50_000} // sat/kw
 
 const (
-	c01sMaxDust     = int64(50_000)      // sat
-	c01sMaxAmt      = uint64(100_000_000) // msat per HTLC
+	// lnd accepts dust limits in [354, 1062] sat only (VerifyConstraints in
+	// lnwallet/reservation.go: DustLimitForSize(UnknownWitnessSize) = 354 sat
+	// <= dust <= 3 x that; BOLT-2 has the same lower bound). The lower bound
+	// makes every untrimmed HTLC worth more than a 330-sat anchor, so that the
+	// anchors sort before the HTLC outputs.
+	c01sMinDust = int64(354)          // sat
+	c01sMaxDust = int64(50_000)       // sat
+	c01sMaxAmt  = uint64(100_000_000) // msat per HTLC
 )
 
-func c01sScenario(s *c01sScn, types, shapes, rates []int) {
+func c01sScenario(s *c01sScn, types, openers, shapes, rates []int) {
 	vs, ts := &s.vs, &s.ts
 	vs.ct = c01TypeOf(types[vChoice("type", len(types))])
-	vs.opener = vChoice("opener", 2)
+	vs.opener = openers[vChoice("opener", len(openers))]
 	vs.chain = c01sX
 
 	// Commitment-level numbers that do not enter the HTLC signatures are
@@ -449,13 +458,18 @@ func c01sScenario(s *c01sScn, types, shapes, rates []int) {
 	// is verified for every fee rate in VerifC01Dust): the relay floor, a
 	// typical and a high rate. With a symbolic rate the fee-floor assertion
 	// of fetchCommitmentView (nested floors of msat/sat conversions) costs
-	// 6-10 s of solver time per path.
+	// 6-10 s of solver time per path. Channel types with zero-fee second-level
+	// transactions are run at the first rate of the list only: the rate then
+	// enters nothing but the commit fee.
+	if vs.ct&c01sBitZeroFee != 0 {
+		rates = rates[:1]
+	}
 	vs.feePerKw = c01sFeeRates[rates[vChoice("feerate", len(rates))]]
 	vs.height = vU64("height")
 	// SetStateNumHint refuses heights above 2^48-1
 	vAssume(vs.height < 1<<48-1)
 	vs.dust[0], vs.dust[1] = vI64("dust.A"), vI64("dust.B")
-	vAssume(vs.dust[0] >= 0 && vs.dust[0] <= c01sMaxDust && vs.dust[1] >= 0 && vs.dust[1] <= c01sMaxDust)
+	vAssume(vs.dust[0] >= c01sMinDust && vs.dust[0] <= c01sMaxDust && vs.dust[1] >= c01sMinDust && vs.dust[1] <= c01sMaxDust)
 
 	sh := c01sShapes[shapes[vChoice("shape", len(shapes))]]
 	for q := 0; q < 2; q++ {
@@ -670,10 +684,11 @@ func c01sJobIs(s *c01sScn, j *SignJob, commit *wire.MsgTx, txid chainhash.Hash, 
 // the check
 // ---------------------------------------------------------------------------
 
-// a well-formed signature (r = s = 1): the verifier side only parses it
-func c01sFixedSig() []byte {
+// the i-th well-formed signature (r = i+1, s = 1): the verifier side only
+// parses it; r identifies the signature a verification job carries
+func c01sFixedSig(i int) []byte {
 	b := make([]byte, 64)
-	b[31], b[63] = 1, 1
+	b[31], b[63] = byte(i+1), 1
 	return b
 }
 
@@ -750,9 +765,9 @@ func c01sCheck(s *c01sScn) {
 	for i := range sigs {
 		var e error
 		if ct&c01BitTaproot != 0 {
-			sigs[i], e = lnwire.NewSigFromSchnorrRawSignature(c01sFixedSig())
+			sigs[i], e = lnwire.NewSigFromSchnorrRawSignature(c01sFixedSig(i))
 		} else {
-			sigs[i], e = lnwire.NewSigFromWireECDSA(c01sFixedSig())
+			sigs[i], e = lnwire.NewSigFromWireECDSA(c01sFixedSig(i))
 		}
 		if e != nil {
 			panic(e)
@@ -777,12 +792,24 @@ func c01sCheck(s *c01sScn) {
 	for i := range jobs {
 		j := &jobs[i]
 		dS := c01sSignDigest(j)
-		dV, e := vjobs[i].SigHash()
+		// the verification job that carries the i-th signature (the
+		// signatures are sent in the order of the sign jobs)
+		var vj *VerifyJob
+		for k := range vjobs {
+			if vjobs[k].Sig != nil && bytes.Equal(vjobs[k].Sig.Serialize(), sigs[i].ToSignatureBytes()) {
+				vj = &vjobs[k]
+			}
+		}
+		vAssert(vj != nil, "the i-th signature is checked by some verification job")
+		if vj == nil {
+			continue
+		}
+		dV, e := vj.SigHash()
 		vAssert(e == nil && dS != nil, "digests are computed")
 		vAssert(bytes.Equal(dS, dV), "the i-th HTLC signature verifies: signer and verifier build identical signing inputs (second-level tx, hash type, script, amount)")
 		// the key: A's HTLC key for this commitment
 		vAssert(j.SignDesc.KeyDesc.PubKey == c01sBase[0] && bytes.Equal(j.SignDesc.SingleTweak, c01sTweak[0]) &&
-			j.SignDesc.DoubleTweak == nil && vjobs[i].PubKey == c01Keys[c01KHtlcA],
+			j.SignDesc.DoubleTweak == nil && vj.PubKey == c01Keys[c01KHtlcA],
 			"signed with / verified against the signer's HTLC key of this commitment")
 
 		// ---- the signer's job is BOLT-3's transaction for one of the HTLCs ----
@@ -840,17 +867,45 @@ func c01sCheck(s *c01sScn) {
 	}
 }
 
-func c01HtlcSigs(types, shapes, rates []int) {
+func c01HtlcSigs(types, openers, shapes, rates []int) {
 	c01sCfg()
 	c01sInitKeys()
 	c01sInitTweaks()
 	var s c01sScn
-	c01sScenario(&s, types, shapes, rates)
+	c01sScenario(&s, types, openers, shapes, rates)
 	c01sCheck(&s)
 }
 
-// VerifC01HtlcSigs: all seven channel types, either party as opener, all five
-// shapes (1 or 2 HTLCs in any combination of directions).
+// Channel types: 0 legacy, 1 tweakless, 2 anchors, 3 zero-fee-htlc anchors,
+// 4 script-enforced lease, 5 taproot staging, 6 taproot final. Shapes (HTLCs
+// offered by A, by B; the commitment is B's, so A's are success, B's timeout
+// transactions): 0 = (1,0), 1 = (0,1), 2 = (1,1), 3 = (2,0), 4 = (0,2).
+// Fee rates: 0 = 2500, 1 = 253, 2 = 50 000 sat/kw.
+
+// VerifC01HtlcSigs (thorough; sharded by type and opener): all seven channel
+// types, either party as opener, all five shapes, 2500 sat/kw.
 func VerifC01HtlcSigs() {
-	c01HtlcSigs([]int{0, 1, 2, 3, 4, 5, 6}, []int{0, 1, 2, 3, 4}, []int{0, 1, 2})
+	c01HtlcSigs([]int{0, 1, 2, 3, 4, 5, 6}, []int{0, 1}, []int{0, 1, 2, 3, 4}, []int{0})
+}
+
+// VerifC01HtlcSigsRates (thorough; sharded by type): the three channel types
+// whose second-level transactions pay a fee, at the relay floor and at a high
+// fee rate; opener A, up to one HTLC per direction.
+func VerifC01HtlcSigsRates() {
+	c01HtlcSigs([]int{0, 1, 2}, []int{0}, []int{0, 1, 2}, []int{1, 2})
+}
+
+// Quick tier: legacy (second-level fees differ per direction) with all five
+// shapes; script-enforced lease with either opener and taproot final, one HTLC
+// in either direction.
+func VerifC01HtlcSigsLegacy() {
+	c01HtlcSigs([]int{0}, []int{0}, []int{0, 1, 2, 3, 4}, []int{0})
+}
+
+func VerifC01HtlcSigsLease() {
+	c01HtlcSigs([]int{4}, []int{0, 1}, []int{0, 1}, []int{0})
+}
+
+func VerifC01HtlcSigsTaproot() {
+	c01HtlcSigs([]int{6}, []int{1}, []int{0, 1}, []int{0})
 }
